@@ -114,7 +114,7 @@ def _make_field(ctx, spec, nvdim=None, wide=None, p_sub=0.5, int_values=False):
         arr = rng.integers(-1000, 1000, (*n, nvdim))
     else:
         arr = ig.rand_float_values(rng, (*n, nvdim), wide)
-    f = df.Field(mesh, nvdim=nvdim, value=arr, vdims=labels, unit=unit)
+    f = gen.via_history(None, df.Field(mesh, nvdim=nvdim, value=arr, vdims=labels, unit=unit))
     return f, arr, labels, unit, boxes
 
 
